@@ -4,6 +4,7 @@ CONSTANTS
   Masks = {1}
   KSValues = {0}
   Keys = {"k1", "k2"}
+  SnapKeeps = TRUE
   Replicas = {"a", "b"}
   Lens = {0}
   MKLens = {16}
@@ -18,6 +19,8 @@ CONSTANTS
   MaxPause = 2
   MaxSub = 4
   MaxLead = 2
+  MaxSnap = 1
+  MaxInstall = 2
   PubClasses = {"long"}
   Hows = {"b2b"}
   TamperRegs = {"KS"}
